@@ -120,6 +120,13 @@ PROPS["C16"] = dict(streams=[REWARDS, CREWARDS], rule=PROV_RULE + "; crewards st
                                "consumer: the ICS-20 keeper is scripted (escrows the tokens, can be made to fail); refunds of failed transfers are ibc-go's and are scripted as escrow -> send buffer; provider-originated (ibc/...) reward denoms and the democracy distribution wrapper (x/ccv/democracy/distribution) are not exercised"],
     fields=r"^begin\.(pool|distr|cp|reward-effects)|^c\d+\.alloc|^reward\.|^cons\.(fc|redis|tosend|escrow|ltbh|transfers)")
 
+EVIDENCE = dict(name="evidence", quick=(6, 700), thorough=(28, 4000))
+PROPS["C07"] = dict(streams=[EVIDENCE], rule=PROV_RULE + "; evidence stream: REAL ed25519-signed duplicate votes submitted through MsgSubmitConsumerDoubleVoting.ValidateBasic and the msg server: mostly valid evidence of a validator's current consumer key, with single-field mutations (other chain id incl. the provider's and another consumer's, vote B with other height / round / type / validator, tampered signature on A or B, forged address, signed by another key, identical block ids, reversed order, nil block, invalid vote type), keys a validator uses on other consumers or has replaced, heights around the consumer's minimum evidence height, unknown / unlaunched / deleted consumers, consumers sharing a chain id with different double-sign settings (tombstone on and off), headers whose validator set lacks the signer / is empty / nil, replays of the previous submission, unbonding delegations and redelegations (matured, maturing now, future, on hold), jailed / tombstoned / unbonding / removed validators",
+    assumptions=PROV_ASSUME + ["A-CRYPTO: an ed25519 signature verifies under identity k's public key iff it was produced with k's private key over exactly the verified bytes (the harness signs real votes; the model records signer, chain id and intactness)",
+                               "x/staking's SlashUnbondingDelegation / SlashRedelegation amount rule (entries not matured or on hold, InitialBalance x factor, truncated) is scripted after the SDK source",
+                               "NOT covered: the light-client-attack path (MsgSubmitConsumerMisbehaviour, CheckMisbehaviour, GetByzantineValidators) - see DESIGN.md"],
+    fields=r"^dvote\.")
+
 # more consumers due at once than the per-block limit of the three time queues (launch, infraction
 # parameters, removal); one scripted history per seed (201..209 consumers), slow (about 3 minutes)
 BULK = dict(name="bulk", quick=(1, 1), thorough=(3, 1))
@@ -127,10 +134,10 @@ for _p in ("C10", "C11", "C20"):
     PROPS[_p]["streams"] = PROPS[_p]["streams"] + [BULK]
 
 NOT_APPLICABLE = {
-    "C07": "not claimed in this round: the harness does not yet construct real signed duplicate-vote evidence / conflicting headers; the technique applies (decision logic + frame), slice not built (DESIGN.md §10)",
 }
 
 LEVEL_TEXT = {
+    "C07": "PARTIAL: double-voting evidence only; the light-client-attack (misbehaviour) half of the property is not modelled. Theorems (Props/C07): an accepted submission is valid (accepted_is_valid) hence every single-field mutation is rejected and changes nothing (other chain, bad signature, wrong key / forged address, same block, H/R/T or validator mismatch, too old, no client); every staking/slashing call names exactly the validator owning the signing key on that consumer; one slash with the consumer's double-sign fraction and power = last power + live unbonding/redelegating power, jail iff not jailed, jail end and tombstone per the consumer's settings; with tombstoning no later evidence of any kind punishes the validator again (tombstoned_at_most_once); other validators' records untouched (applyEffects_frame). Tie: real signed votes through the real ValidateBasic + msg server, one-step correspondence of result, stage and every staking/slashing call + Spec.C07 clauses on the implementation.",
     "C16": "Theorems (Props/C16, 10^18-scaled integer arithmetic = LegacyDec): one (consumer, denom) step splits the credit EXACTLY into distribution-module tokens + community-pool tokens + remaining credit; validators together never receive more than was moved for them and all but n*(tokens+1)*10^-18 of it; only current, eligible members are paid and every eligible member is; payouts monotone in consumer power and never above the exact share; over a whole AllocateTokens the three module accounts conserve every denom and credits fall by exactly what left the pool; credits are always backed by the pool, so the roll-back branch is unreachable; crediting is exact. Tie: one-step correspondence of balances, credits and every AllocateTokensToValidator / FundCommunityPool / bank call + Spec.C16 clauses on the implementation's own numbers.",
     "C19": "Theorems: a failed launch leaves exactly the pre-launch state with phase registered and spawn cleared (others untouched), the fall-back cannot fail when initial height and chain id agree, creation/update keep them in agreement, deletion all-or-nothing, removal/infraction switch/meter have no error path. Tie: block results and all-or-nothing clauses on every block of every stream, with injected failures of external calls.",
     "C08": "Theorems: double-sign never punishes; effects = jailPlan (exactly the validator owning the key, existing, not unbonded/tombstoned/jailed, consumer's own downtime parameters, mapped infraction height); acks when declined; unknown id => error ack; consumer keeps one outstanding report per validator and clears on ack. Tie: one-step correspondence incl. the calls made to staking/slashing + Spec.Slash on the implementation.",
